@@ -58,6 +58,14 @@ def case_variant_prefix(head, rng):
 GLUE_CHARS = set("()[],;")
 
 
+_MARK = re.compile(r"<([0-9A-F]{2,6})>")
+
+
+def unmark(s):
+    """GrammarProds.tla writes non-ASCII characters of string literals as <HEX> (code point): the module stays ASCII"""
+    return _MARK.sub(lambda m: chr(int(m.group(1), 16)), s) if "<" in s else s
+
+
 def spell(toks, rng=None, trivia=False, case=False, drop_endif_semi=False, compact=False):
     """Returns (text, spans): spans[i] = (start, end) byte offsets of token i (None if the token is dropped).
     Canonical spelling: exactly one blank between two tokens unless the second is marked glued.
@@ -84,7 +92,8 @@ def spell(toks, rng=None, trivia=False, case=False, drop_endif_semi=False, compa
             parts.append(sep)
             pos += len(sep.encode("utf-8"))
         first = False
-        w = text
+        w = unmark(text) if cat == "lit" else text
+        text = w
         if case and rng is not None:
             if cat == "kw" and re.fullmatch(r"[A-Za-z_][A-Za-z_0-9]*", text):
                 w = case_variant(text, rng)
@@ -105,6 +114,8 @@ def spell(toks, rng=None, trivia=False, case=False, drop_endif_semi=False, compa
 def unwrap(v):
     if v[0] == "$":
         return v[1]
+    if v[0] == "Str":
+        return ["Str", unmark(v[1][1])]
     return [v[0]] + [unwrap(c) for c in v[1:]]
 
 
@@ -168,9 +179,9 @@ def _norm(v):
         return [tag, ch[0], _as_int(ch[1]), _as_int(ch[2]), _as_int(ch[3])]
     if tag == "Range":
         return [tag, _as_int(ch[0]), _as_int(ch[1])]
-    if tag == "StrSpec" and ch[1] == "-" and ch[2] == "-":
-        # STRING / WSTRING without length and initial value is just a reference to the elementary type
-        return ["TRef", ch[0], "-"]
+    if tag == "StrSpec" and ch[1] == "-":
+        # STRING / WSTRING without length is just a reference to the elementary type (with or without initial value)
+        return ["TRef", ch[0], ch[2]]
     return [tag] + ch
 
 
